@@ -19,3 +19,52 @@ Print Assumptions c19_distinct.
 Theorem c19_lookup : forall z : Z, get_tag_name z = spec_tag_name z.
 Proof. exact tag_name_all_integers. Qed.
 Print Assumptions c19_lookup.
+
+(* ---- libwifi_get_tag_name AS TRANSLATED statement by statement (Gen/Sites.v, tools/sites.py): its body IS one switch over the table that the OTHER translator (tools/translate.py,
+   Gen/Tables.v) extracted - nothing in front of it, nothing behind it - so a guard added before the switch, a changed label or a changed literal falsifies these ---- *)
+From Coq Require Import List.
+Import ListNotations.
+From LW Require Import Base.CExpr Gen.Sites Gen.Tables Spec.CodeSpec Proofs.CodeNames.
+Local Open Scope list_scope.
+Local Open Scope string_scope.
+Local Open Scope Z_scope.
+
+(* for EVERY environment, memory, trace and fuel: the routine returns the literal Model/TagName.v names for the argument read as the int it is, calls nothing, changes nothing *)
+Theorem c19_code_get_tag_name_env : forall f m rho tr,
+  exec (S (S f)) m rho tr body_libwifi_get_tag_name =
+  Returned (Some (wrap u64 (rho ("str:" ++ get_tag_name (wrap s32 (rho "tag_number")))))) rho tr.
+Proof. exact code_get_tag_name_env. Qed.
+Print Assumptions c19_code_get_tag_name_env.
+
+(* every int *)
+Theorem c19_code_get_tag_name : forall n m rho,
+  - 2 ^ 31 <= n < 2 ^ 31 -> rho "tag_number" = n ->
+  exec 5 m rho [] body_libwifi_get_tag_name = Returned (Some (wrap u64 (rho ("str:" ++ get_tag_name n)))) rho [].
+Proof. exact code_get_tag_name. Qed.
+Print Assumptions c19_code_get_tag_name.
+
+(* no case label twice; the labels of the C switch are the table's, in order *)
+Theorem c19_code_tag_name_labels_distinct : NoDup (map fst tag_name_table) /\ NoDup (switch_labels body_libwifi_get_tag_name) /\
+  switch_labels body_libwifi_get_tag_name = map fst tag_name_table.
+Proof. exact code_tag_name_labels_distinct. Qed.
+Print Assumptions c19_code_tag_name_labels_distinct.
+
+(* negative and out-of-octet values get the fixed unknown-tag string *)
+Theorem c19_code_tag_name_outside : forall f m rho tr n,
+  wrap s32 (rho "tag_number") = n -> n < 0 \/ 255 < n ->
+  exec (S (S f)) m rho tr body_libwifi_get_tag_name = Returned (Some (wrap u64 (rho "str:Unknown Tag"))) rho tr.
+Proof. exact code_tag_name_outside. Qed.
+Print Assumptions c19_code_tag_name_outside.
+
+(* a valid constant string for every integer: one of the 170 literals *)
+Theorem c19_code_tag_name_never_stuck : forall f m rho tr,
+  exists s, In s tag_name_literals /\
+            exec (S (S f)) m rho tr body_libwifi_get_tag_name = Returned (Some (wrap u64 (rho ("str:" ++ s)))) rho tr.
+Proof. exact code_tag_name_never_stuck. Qed.
+Print Assumptions c19_code_tag_name_never_stuck.
+
+(* the 170 literals are pairwise different *)
+Theorem c19_code_tag_name_names_distinct : NoDup tag_name_literals.
+Proof. exact code_tag_name_names_distinct. Qed.
+Print Assumptions c19_code_tag_name_names_distinct.
+
